@@ -67,8 +67,10 @@ func (s *Sim) kRun(p *corev1.Pod) {
 	p.Status.Phase = corev1.PodRunning
 	old := p.Status.ContainerStatuses
 	p.Status.ContainerStatuses = nil
+	// a template whose pods run but never pass their readiness probe
+	ready := s.W.Extra["neverReady"] == "" || letterOfPod(p) != s.W.Extra["neverReady"]
 	for _, c := range p.Spec.Containers {
-		cs := corev1.ContainerStatus{Name: c.Name, Image: c.Image, Ready: true, State: corev1.ContainerState{Running: &corev1.ContainerStateRunning{StartedAt: now}}}
+		cs := corev1.ContainerStatus{Name: c.Name, Image: c.Image, Ready: ready, State: corev1.ContainerState{Running: &corev1.ContainerStateRunning{StartedAt: now}}}
 		for _, o := range old {
 			if o.Name == c.Name {
 				cs.RestartCount = o.RestartCount
@@ -78,7 +80,11 @@ func (s *Sim) kRun(p *corev1.Pod) {
 		p.Status.ContainerStatuses = append(p.Status.ContainerStatuses, cs)
 	}
 	setPodCond(p, corev1.PodScheduled, corev1.ConditionTrue, "", now)
-	setPodCond(p, corev1.PodReady, corev1.ConditionTrue, "", now)
+	if ready {
+		setPodCond(p, corev1.PodReady, corev1.ConditionTrue, "", now)
+	} else {
+		setPodCond(p, corev1.PodReady, corev1.ConditionFalse, "ContainersNotReady", now)
+	}
 	s.Store.ForceUpdate(p)
 }
 
@@ -97,6 +103,9 @@ func (s *Sim) kSettle(p *corev1.Pod) bool {
 	}
 	if p.Status.Phase == corev1.PodRunning && podReady(p) {
 		return false
+	}
+	if p.Status.Phase == corev1.PodRunning && s.W.Extra["neverReady"] != "" && letterOfPod(p) == s.W.Extra["neverReady"] && len(p.Status.ContainerStatuses) > 0 && p.Status.ContainerStatuses[0].State.Running != nil {
+		return false // running and, as far as it will ever get, settled
 	}
 	s.kRun(p)
 	return true
